@@ -5,11 +5,12 @@ set -e
 VERIF="$(cd "$(dirname "$0")/.." && pwd)"
 REPO="${GATERY_REPO:-/repo}"
 FLAVOR="${1:-plain}"
-BDIR="$VERIF/.build/gatery-$FLAVOR"
+BROOT="${VERIF_BUILD:-$VERIF/.build}"
+BDIR="$BROOT/gatery-$FLAVOR"
 FLAGS="-O1 -g0 -w -DGATERY_VERIF"
 if [ "$FLAVOR" = asan ]; then FLAGS="-O1 -g1 -w -DGATERY_VERIF -fsanitize=address,undefined -fno-sanitize-recover=all -fno-omit-frame-pointer"; fi
-mkdir -p "$VERIF/.build"
-exec 9>"$VERIF/.build/.lock-$FLAVOR"
+mkdir -p "$BROOT"
+exec 9>"$BROOT/.lock-$FLAVOR"
 flock 9
 if [ ! -f "$BDIR/build.ninja" ]; then
   cmake -S "$REPO" -B "$BDIR" -G Ninja -DCMAKE_BUILD_TYPE=None -DCMAKE_CXX_FLAGS="$FLAGS" >"$BDIR.cmake.log" 2>&1 || { cat "$BDIR.cmake.log"; exit 2; }
